@@ -989,4 +989,31 @@ theorem skipF_bounded : SkipBounded Gopkg.skipF := by
   · exact skipTypeF_bounded 64 t bs
 
 
+
+/-- **the guards emitted by the repaired generator discharge the hypothesis on the runtime's Skip**: whatever
+gopkg's Skip answers — a panic (recovered by the deferred `recover()`), a length beyond the buffer (caught by
+`if off > len(b)`) — the guarded skip path is bounds-respecting. Nothing about `Gopkg.skip` is used. -/
+theorem guardedSkip_bounded (n : Bool) : SkipBounded (guardedSkip n true true) := by
+  intro t bs
+  show Bounded (guardedSkip n true true t bs) bs
+  unfold guardedSkip
+  split
+  · trivial
+  · cases Gopkg.skip t bs with
+    | panic w => trivial
+    | err => trivial
+    | ok l =>
+      simp only [Bool.true_and]
+      by_cases h : l > bs.length
+      · simp only [h, decide_true, if_true]; trivial
+      · simp only [h, decide_false, Bool.false_eq_true, if_false]
+        show l ≤ bs.length
+        omega
+
+/-- without guards the skip path is gopkg's Skip -/
+theorem guardedSkip_none : guardedSkip false false false = Gopkg.skip := by
+  funext t bs
+  unfold guardedSkip
+  cases Gopkg.skip t bs <;> simp
+
 end Gen.Fast
